@@ -207,7 +207,7 @@ func genCmd(r *gen.Rand, w *World, extra bool) Cmd {
 		p  pick
 		id uint64
 	}
-	var sgs, igs []gref
+	var sgs, sgsDel, igs []gref
 	var shards, idxFree []uint64
 	used := map[uint64]bool{}
 	type mref struct {
@@ -226,6 +226,9 @@ func genCmd(r *gen.Rand, w *World, extra bool) Cmd {
 			}
 			for _, g := range rp.SGs {
 				sgs = append(sgs, gref{p, g.ID})
+				if g.Deleted {
+					sgsDel = append(sgsDel, gref{p, g.ID})
+				}
 				for _, s := range g.Shards {
 					shards = append(shards, s.ID)
 					used[s.Index] = true
@@ -275,30 +278,51 @@ func genCmd(r *gen.Rand, w *World, extra bool) Cmd {
 	} else if len(dbs) == 0 && r.Chance(2, 3) {
 		k = 6
 	}
-	if extra && r.Chance(1, 4) {
+	// commands outside the Coq model (oracle and wf_b only)
+	if extra && r.Chance(1, 5) {
 		p := anyPair()
-		switch r.Intn(8) {
+		switch r.Intn(4) {
+		case 0:
+			return Cmd{K: "cnode", H: r.Range(1, 5), T: r.Range(1, 5), X: "reader"}
+		case 1:
+			return Cmd{K: "altkey", DB: p.db, RP: p.rp, M: r.Range(1, 3), Ver: r.Range(1, 3)}
+		case 2:
+			return Cmd{K: "updschema", DB: p.db, RP: p.rp, M: r.Range(1, 3), Ver: r.Range(1, 3), Eng: []int{1, 3, 6}[r.Intn(3)]}
+		case 3:
+			return Cmd{K: "cmst", DB: p.db, RP: p.rp, M: r.Range(1, 3), X: []string{"otherkey", "schema"}[r.Intn(2)]}
+		}
+	}
+	// the commands modelled since round 5: inconsistent schema list, policy rename, cancelled group deletion, node removal,
+	// group expansion
+	if r.Chance(1, 8) {
+		p := anyPair()
+		switch r.Intn(7) {
 		case 0:
 			return Cmd{K: "cmst", DB: p.db, RP: p.rp, M: r.Range(1, 3), X: "badschema"}
-		case 1:
+		case 1, 2:
+			// preferably a group that is marked deleted (and may have been re-created since)
+			if len(sgsDel) > 0 && r.Chance(4, 5) {
+				g := gen.Pick(r, sgsDel)
+				return Cmd{K: "delsg", DB: g.p.db, RP: g.p.rp, ID: g.id, X: "cancel"}
+			}
 			if len(sgs) > 0 {
 				g := gen.Pick(r, sgs)
 				return Cmd{K: "delsg", DB: g.p.db, RP: g.p.rp, ID: g.id, X: "cancel"}
 			}
-		case 2:
-			return Cmd{K: "urp", DB: p.db, RP: p.rp, M: r.Range(1, 3), X: "rename"}
 		case 3:
-			return Cmd{K: "cnode", H: r.Range(1, 5), T: r.Range(1, 5), X: "reader"}
+			c := Cmd{K: "urp", DB: p.db, RP: p.rp, M: r.Range(1, 3), X: "rename", Def: r.Chance(1, 4)}
+			if r.Chance(1, 3) {
+				v := gen.Pick(r, sgdPool)
+				c.SGD = &v
+			}
+			return c
 		case 4:
-			if len(d.Nodes) > 0 {
+			if len(d.Nodes) > 0 && r.Chance(1, 2) {
 				return Cmd{K: "rmnode", ID: gen.Pick(r, d.Nodes).ID}
 			}
-		case 5:
-			return Cmd{K: "altkey", DB: p.db, RP: p.rp, M: r.Range(1, 3), Ver: r.Range(1, 3)}
-		case 6:
-			return Cmd{K: "updschema", DB: p.db, RP: p.rp, M: r.Range(1, 3), Ver: r.Range(1, 3), Eng: []int{1, 3, 6}[r.Intn(3)]}
-		case 7:
-			return Cmd{K: "cmst", DB: p.db, RP: p.rp, M: r.Range(1, 3), X: []string{"otherkey", "schema"}[r.Intn(2)]}
+			return Cmd{K: "rmnode", ID: uint64(r.Intn(5))}
+		case 5, 6:
+			return Cmd{K: "expand"}
 		}
 	}
 	if r.Chance(1, 22) {
@@ -476,14 +500,25 @@ func genCase(r *gen.Rand, idx int, extra bool) *Case {
 	for i := 0; i < n; i++ {
 		c := genCmd(r, w, extra)
 		res := w.exec(c)
-		if res == 0 && c.X == "rename" {
-			break // the stale map key makes every later lookup of that policy diverge: one finding per case
+		if res == 0 && c.X == "rename" && staleKey(w) {
+			break // a stale map key makes every later lookup of that policy diverge: one finding per case
 		}
 		if res == 2 {
 			break // the state machine panicked: the process is gone
 		}
 	}
 	return finish(w)
+}
+
+// staleKey: the last command left a policy under a key that is not its name
+func staleKey(w *World) bool {
+	step := len(w.cs.Cmds) - 1
+	for _, f := range w.cs.Oracle {
+		if f.Step == step && f.Kind == "key-name-mismatch" {
+			return true
+		}
+	}
+	return false
 }
 
 func finish(w *World) *Case {
@@ -569,6 +604,73 @@ func corpus() []*Case {
 			{K: "cnode", H: 1, T: 1},
 			{K: "cptv", DB: 2}, // what the server does first when asked to create db2
 			{K: "cnode", H: 2, T: 2},
+		}),
+		// a group is marked deleted, a write re-creates its span, the deletion is cancelled (RevertRetentionPolicyDelete)
+		scripted("witness-cancel-delete-over-live-group", 1, []Cmd{
+			{K: "cnode", H: 1, T: 1},
+			{K: "cdb", DB: 1, HasRP: true, RP: 1, D: i64(0), SGD: i64(Hour)},
+			{K: "cmst", DB: 1, RP: 1, M: 1},
+			{K: "csg", DB: 1, RP: 1, TS: t10 + 5},
+			{K: "delsg", DB: 1, RP: 1, ID: 1},
+			{K: "delsg", DB: 1, RP: 1, ID: 1, X: "cancel"}, // nothing in the way: revived
+			{K: "delsg", DB: 1, RP: 1, ID: 1},
+			{K: "csg", DB: 1, RP: 1, TS: t10 + 5},
+			{K: "delsg", DB: 1, RP: 1, ID: 1, X: "cancel"},
+		}),
+		// index groups never end before the shard group they serve (the C14 clause): short index groups, then longer shard groups
+		scripted("index-group-covers-longer-shard-group", 2, []Cmd{
+			{K: "cnode", H: 1, T: 1},
+			{K: "cdb", DB: 1, HasRP: true, RP: 1, D: i64(0), SGD: i64(Hour)},
+			{K: "cmst", DB: 1, RP: 1, M: 1},
+			{K: "csg", DB: 1, RP: 1, TS: t10 + 5},
+			{K: "delsg", DB: 1, RP: 1, ID: 1},
+			{K: "urp", DB: 1, RP: 1, SGD: i64(24 * Hour)},
+			{K: "csg", DB: 1, RP: 1, TS: t10 + 30*60*1e9}, // inside the old 1h index group, the new group lasts the day
+			{K: "csg", DB: 1, RP: 1, TS: t10 + 30*60*1e9, Eng: 1},
+			{K: "urp", DB: 1, RP: 1, SGD: i64(3 * Hour)},
+			{K: "delsg", DB: 1, RP: 1, ID: 2},
+			{K: "csg", DB: 1, RP: 1, TS: t10 + Hour + 5}, // 3h group [09:00,12:00): the day index group is reused
+			{K: "cnode", H: 2, T: 2},
+			{K: "expand"},
+			{K: "csg", DB: 1, RP: 1, TS: t10 + 5*Hour},
+			{K: "restore"},
+		}),
+		// after an expansion the id ranges of different groups interleave: pruning marks only the element with the id
+		scripted("expand-interleaves-id-ranges", 1, []Cmd{
+			{K: "cnode", H: 1, T: 1},
+			{K: "cdb", DB: 1, HasRP: true, RP: 1, D: i64(0), SGD: i64(Hour)},
+			{K: "cdb", DB: 2}, // autogen sorts before rp1
+			{K: "cmst", DB: 1, RP: 1, M: 1}, {K: "cmst", DB: 2, RP: 4, M: 1},
+			{K: "csg", DB: 2, RP: 4, TS: t10}, {K: "csg", DB: 1, RP: 1, TS: t10}, {K: "csg", DB: 1, RP: 1, TS: t10 + Hour},
+			{K: "delig", DB: 1, RP: 1, ID: 2},
+			{K: "cnode", H: 2, T: 2}, {K: "cnode", H: 3, T: 3},
+			{K: "expand"},
+			{K: "csg", DB: 1, RP: 1, TS: t10 + 2*Hour},
+			{K: "prunesg", ID: 2}, {K: "prunesg", ID: 4}, {K: "prunesg", ID: 5}, {K: "pruneig", ID: 40},
+			{K: "delsg", DB: 1, RP: 1, ID: 2}, {K: "prunesg", ID: 2}, {K: "prunesg", ID: 6}, {K: "prunesg", ID: 7},
+			{K: "restore"}, {K: "expand"}, {K: "rmnode", ID: 2}, {K: "cnode", H: 4, T: 4}, {K: "expand"},
+			{K: "csg", DB: 1, RP: 1, TS: t10 + 3*Hour},
+		}),
+		// rename a policy (also the default one), keep working under the new name; inconsistent schema lists; unknown databases
+		scripted("rename-and-half-applied", 1, []Cmd{
+			{K: "cnode", H: 1, T: 1},
+			{K: "cptv", DB: 3},
+			{K: "dropdb", DB: 3}, // unknown database: nothing happens, the view stays
+			{K: "cdb", DB: 1, HasRP: true, RP: 1, D: i64(0), SGD: i64(Hour)},
+			{K: "cmst", DB: 1, RP: 1, M: 1, X: "badschema"},
+			{K: "cmst", DB: 1, RP: 1, M: 1},
+			{K: "cmst", DB: 1, RP: 1, M: 1, X: "badschema"}, // exists: accepted, nothing changes
+			{K: "crp", DB: 1, RP: 2, D: i64(0), SGD: i64(Hour)},
+			{K: "urp", DB: 1, RP: 1, M: 2, X: "rename"},                          // taken
+			{K: "urp", DB: 1, RP: 1, M: 3, X: "rename", SGD: i64(2 * Hour)},      // default policy renamed
+			{K: "csg", DB: 1, RP: 0, TS: t10},                                    // default still resolves
+			{K: "urp", DB: 1, RP: 2, M: 1, X: "rename", Def: true},               // the freed name
+			{K: "urp", DB: 1, RP: 0, M: 2, X: "rename"},                          // through the default name
+			{K: "csg", DB: 1, RP: 2, TS: t10 + 5*Hour}, {K: "csg", DB: 1, RP: 3, TS: t10 + 5*Hour},
+			{K: "restore"},
+			{K: "markrp", DB: 1, RP: 3}, {K: "urp", DB: 1, RP: 3, M: 1, X: "rename"}, {K: "urp", DB: 1, RP: 2, M: 3, X: "rename"},
+			{K: "droprp", DB: 1, RP: 3}, {K: "urp", DB: 1, RP: 2, M: 3, X: "rename"},
+			{K: "rmnode", ID: 1}, {K: "cdb", DB: 2}, {K: "cnode", H: 1, T: 1}, {K: "cnode", H: 2, T: 2}, {K: "cptv", DB: 2},
 		}),
 		scripted("boundaries-and-failures", 2, []Cmd{
 			{K: "cdb", DB: 1, HasRP: true, RP: 1, D: i64(0), SGD: i64(Hour)}, // store not ready
